@@ -269,7 +269,7 @@ func routeOnce(c *Case, rows []Metric, check bool, scen string) (batch *metric.B
 			rows[i].NS = ctx.ReqNS
 		}
 	}
-	now0 := clockNow()
+	now0, real0 := clockNow(), time.Now().UnixMilli()
 	ts := make([]int64, len(rows))
 	for i := range rows {
 		ts[i] = rows[i].TS.resolve(now0, r)
@@ -289,6 +289,7 @@ func routeOnce(c *Case, rows []Metric, check bool, scen string) (batch *metric.B
 	} else {
 		batch = nil
 	}
+	real1 := time.Now().UnixMilli()
 	if clockNow() != now0 {
 		return batch, false
 	}
@@ -344,7 +345,7 @@ func routeOnce(c *Case, rows []Metric, check bool, scen string) (batch *metric.B
 				continue
 			}
 			delivered[k]++
-			if clause, detail := checkStored(&rows[k], ctx, ts[k], now0-2000, now0+2000, &s); clause != "" {
+			if clause, detail := checkStored(&rows[k], ctx, ts[k], min64(now0, real0)-2000, max64(now0, real1)+2000, &s); clause != "" {
 				violate(c, clause, scen, site, fmt.Sprintf("row %d after routing: %s", k, detail))
 			}
 			sentTS := ts[k]
@@ -395,6 +396,20 @@ func routeOnce(c *Case, rows []Metric, check bool, scen string) (batch *metric.B
 	}
 	rep.Outcome(fmt.Sprintf("%s/rows=%d accepted=%d routed=%d evicted=%d groups=%d", c.Stage, len(rows), len(parsed), nRouted, nEvicted, len(groups)))
 	return batch, true
+}
+
+func min64(a, b int64) int64 {
+	if a < b {
+		return a
+	}
+	return b
+}
+
+func max64(a, b int64) int64 {
+	if a > b {
+		return a
+	}
+	return b
 }
 
 func shardsOf(gs []group) string {
